@@ -23,6 +23,9 @@ type vfChunkReader struct {
 	pos  int
 	sym  int
 	eof  bool
+	fixed int // > 0: at most this many bytes per Read
+	// call-stack depth (nd.Depth) seen at Read calls: the decoder reads from inside its recursion
+	minDepth, maxDepth int
 }
 
 func (r *vfChunkReader) Read(p []byte) (int, error) {
@@ -34,6 +37,18 @@ func (r *vfChunkReader) Read(p []byte) (int, error) {
 	n := left
 	if n > len(p) {
 		n = len(p)
+	}
+	if r.fixed > 0 {
+		if n > r.fixed {
+			n = r.fixed
+		}
+		d := nd.Depth()
+		if r.minDepth == 0 || d < r.minDepth {
+			r.minDepth = d
+		}
+		if d > r.maxDepth {
+			r.maxDepth = d
+		}
 	}
 	if r.sym > 0 && n > 1 {
 		r.sym--
